@@ -18,8 +18,8 @@ PAYLOADS = [
     MARK + "é日本", MARK + "'a", MARK + "\\u{41}", MARK + "#\"#", MARK + "\\n", "\t" + MARK + "\t", MARK + "]]>", MARK + "${x}",
 ]
 # lexical forms of numbers that Rust's FromStr accepts or rejects differently from Rust's expression syntax
-NUMERIC_FORMS = ["+1", "007", " 5 ", "-0", "+0", "1e3", "0x10", "1_000", "\u0661\u0662", "--1", "+ 1", "2147483647", "+2147483647", "2147483648", "1.0", ""]
-NAME_PAYLOADS = [MARK + "-9.x", "9" + MARK, MARK + " with space", "_" + MARK, MARK + "é", "-" + MARK + "-", MARK + '"q', MARK + "/*x*/", MARK + ";"]
+NUMERIC_FORMS = ["+1", "007", " 5 ", "-0", "+0", "1e3", "0x10", "1_000", "\u0661\u0662", "--1", "+ 1", "2147483647", "+2147483647", "2147483648", "-2147483649", "9999999999", "-9999999999", "18446744073709551616", "1.0", ""]
+NAME_PAYLOADS = ["_", "__", "_._", "-", "a_", MARK + "-9.x", "9" + MARK, MARK + " with space", "_" + MARK, MARK + "é", "-" + MARK + "-", MARK + '"q', MARK + "/*x*/", MARK + ";"]
 
 SCHEMA = """<xs:schema xmlns:xs="http://www.w3.org/2001/XMLSchema" xmlns:tns={uri} targetNamespace={uri} elementFormDefault="qualified">
   <xs:simpleType name={stname}>
@@ -33,6 +33,16 @@ SCHEMA = """<xs:schema xmlns:xs="http://www.w3.org/2001/XMLSchema" xmlns:tns={ur
     <xs:attribute name={atname} type="xs:string"/>
   </xs:complexType>
   <xs:element name={gename}><xs:complexType><xs:sequence><xs:element name="v" type="xs:string"/></xs:sequence></xs:complexType></xs:element>
+</xs:schema>
+"""
+SCHEMA_F = """<xs:schema xmlns:xs="http://www.w3.org/2001/XMLSchema" xmlns:tns="urn:zv:c14:main" xmlns:o={furi} targetNamespace="urn:zv:c14:main" elementFormDefault="qualified">
+  <xs:import namespace={furi} schemaLocation="other.xsd"/>
+  <xs:complexType name="Holder"><xs:sequence><xs:element name="own" type="xs:string"/><xs:element ref="o:Item"/><xs:element name="typed" type="o:Kind"/></xs:sequence></xs:complexType>
+</xs:schema>
+"""
+SCHEMA_F_OTHER = """<xs:schema xmlns:xs="http://www.w3.org/2001/XMLSchema" xmlns:o={furi} targetNamespace={furi} elementFormDefault="qualified">
+  <xs:element name="Item" type="xs:string"/>
+  <xs:simpleType name="Kind"><xs:restriction base="xs:string"><xs:maxLength value="9"/></xs:restriction></xs:simpleType>
 </xs:schema>
 """
 WSDL = """<wsdl:definitions xmlns:wsdl="http://schemas.xmlsoap.org/wsdl/" xmlns:soap="http://schemas.xmlsoap.org/wsdl/soap/" xmlns:xs="http://www.w3.org/2001/XMLSchema" xmlns:tns={uri} targetNamespace={uri}>
@@ -52,9 +62,9 @@ WSDL = """<wsdl:definitions xmlns:wsdl="http://schemas.xmlsoap.org/wsdl/" xmlns:
 WSDL2 = WSDL.replace("<soap:header message={msgref} part={partname} use=\"literal\"/>", "").replace("{bodypart}", "")
 WSDL = WSDL.replace("{bodypart}", '<wsdl:part name="zvbody" element="tns:Reply"/>')
 
-DEFAULTS = {"uri": "urn:zv:c14", "stname": "Code", "doc": "plain", "enum": "A", "facet": "9", "nfacet": "1", "ctname": "Thing", "elname": "name", "atname": "id", "gename": "Ask",
+DEFAULTS = {"furi": "urn:zv:c14:other", "uri": "urn:zv:c14", "stname": "Code", "doc": "plain", "enum": "A", "facet": "9", "nfacet": "1", "ctname": "Thing", "elname": "name", "atname": "id", "gename": "Ask",
             "msgname": "In", "partname": "p", "opname": "ask", "action": "http://example.com/act", "svcname": "Svc", "address": "http://example.com/svc"}
-LITERAL_POS = {"uri", "enum", "elname", "atname", "gename", "ctname", "stname"}      # the original text must be the value of some string literal
+LITERAL_POS = {"uri", "furi", "enum", "elname", "atname", "gename", "ctname", "stname"}      # the original text must be the value of some string literal
 DOC_POS = {"doc"}
 NAME_POS = {"stname", "ctname", "elname", "atname", "gename", "partname", "opname", "svcname", "msgname"}
 URL_POS = {"action", "address"}
@@ -73,10 +83,12 @@ def render(template, vals):
 def build_cases(root, tier, rng):
     cases = []
 
-    def add(kind, pos, text, template, fname):
+    def add(kind, pos, text, template, fname, extra=None):
         d = os.path.join(root, f"k{len(cases)}")
         os.makedirs(os.path.join(d, "in"))
         open(os.path.join(d, "in", fname), "w", encoding="utf-8").write(render(template, {pos: text}))
+        for en, et in (extra or {}).items():
+            open(os.path.join(d, "in", en), "w", encoding="utf-8").write(render(et, {pos: text}))
         cases.append({"dir": d, "in": os.path.join(d, "in"), "start": fname, "meta": {"features": f"{kind} {pos}", "pos": pos, "text": text, "kind": kind}, "ref": None})
 
     for kw in KEYWORDS:
@@ -89,6 +101,8 @@ def build_cases(root, tier, rng):
             add("payload", pos, p, SCHEMA, "k.xsd")
         for pos in ("action", "address", "uri"):
             add("payload", pos, ("http://example.com/" if pos != "uri" else "urn:") + p, WSDL2, "k.wsdl")
+        # the namespace of an imported file whose components the start file's type has as members (declared on that struct, too)
+        add("payload", "furi", "urn:" + p, SCHEMA_F, "k.xsd", {"other.xsd": SCHEMA_F_OTHER})
         # URLs keep different characters in different components: an opaque path (no `//`) keeps quotes,
         # a query or a fragment keeps backslashes
         for pos in ("action", "address"):
@@ -158,6 +172,10 @@ def run(tier, seed):
             vals = [bytes.fromhex(t[1]).decode("utf-8", "replace") for t in toks if t[0] == "str"]
             if want is not None and want not in vals and pos != "uri":
                 problem = ("literal-does-not-evaluate-to-the-text", f"payload {text!r} at {pos}: no string literal has that value (values: {vals[:3]})")
+            if pos == "furi":
+                want = None
+                if not any(text in v for v in vals):
+                    problem = ("literal-does-not-evaluate-to-the-text", f"imported namespace URI {text!r}: no string literal carries it (values: {vals[:3]})")
             if pos == "uri" and not any(text in v for v in vals):
                 problem = ("literal-does-not-evaluate-to-the-text", f"namespace URI {text!r}: no string literal carries it (values: {vals[:3]})")
         elif kind == "payload" and pos in ("facet", "nfacet"):
@@ -174,13 +192,15 @@ def run(tier, seed):
     # rustc on the keyword family
     kwcases = [cs for cs in cases if cs["meta"]["kind"] == "keyword" and cs["impl"].startswith("ok")]
     chosen = kwcases if tier == "thorough" else kwcases[:: max(1, len(kwcases) // 160)]
+    # ... and on the numeric lexical forms of facets (a facet beyond the carrier's range must not become an out-of-range literal)
+    chosen = chosen + [cs for cs in cases if cs["meta"]["kind"] == "numeric-form" and cs["impl"].startswith("ok")]
     n_comp = 0
     for i in range(0, len(chosen), 64):
         okc, res, info = cp.compile_batch(chosen[i:i + 64], with_struct_asserts=False, with_send_asserts=False)
         n_comp += info["modules"]
         for cs in okc:
             if res[id(cs)]["emitted"]:
-                fails.append(("keyword-name-does-not-compile", f"keyword {cs['meta']['text']!r} as {cs['meta']['pos']}: {res[id(cs)]['emitted'][0][:200]}", cs))
+                fails.append(("keyword-name-does-not-compile" if cs["meta"]["kind"] == "keyword" else "facet-form-does-not-compile", f"{cs['meta']['kind']} {cs['meta']['text']!r} as {cs['meta']['pos']}: {res[id(cs)]['emitted'][0][:200]}", cs))
     gencrate.cleanup()
     # non-ASCII text in identifier position is outside the Lean transcription of Inflector (documented approximation)
     def modelled(cs):
